@@ -29,7 +29,7 @@ Qed.
 
 Definition with_f (E : env) (g : list (eF E) -> option (list (eF E))) : env :=
   mkEnv (eF E) (e_zero E) (e_one E) (e_half E) (e_add E) (e_sub E) (e_mul E) (e_div E) (e_abs E) (e_ltb E) (e_leb E)
-        (e_tolj E) (e_ten E) (e_hundred E) (e_atol E) (e_lo E) (e_hi E) g (e_pen E) (e_newton E) (e_broyden E) (e_log10 E).
+        (e_tolj E) (e_ten E) (e_hundred E) (e_atol E) (e_lo E) (e_hi E) g (e_pen E) (e_newton E) (e_broyden E) (e_log10 E) (e_match E).
 
 Section Nonint.
   Variable E : env.
@@ -456,7 +456,7 @@ Section Nonint.
 
   Lemma able_R st t v vn s1 s2 : stR s1 s2 -> stR (able E1 cf st t v vn s1) (able E2 cf st t v vn s2).
   Proof.
-    intros H. unfold able. normE. unfold stR in H |- *; stsimpl.
+    intros H. unfold able. normE. change (set_flags E2) with (set_flags E1). unfold stR in H |- *; stsimpl.
     repeat match goal with H : _ /\ _ |- _ => destruct H end. repeat split; auto; congruence.
   Qed.
   Lemma pre_flags_R a s1 s2 : stR s1 s2 -> stR (pre_flags E1 cf a s1) (pre_flags E2 cf a s2).
